@@ -46,10 +46,30 @@ NAMINGS = {
     'asc':  ['A', 'B', 'C', 'D'],                 # parents sort before children
     'desc': ['T.Z', 'T.Y', 'M', 'K.Q.B'],         # children sort before parents; nested groups
     'bi':   ['NUMBER', 'TEXT', 'X.W', 'NAME'],    # ids that also have built-in defaults
+    # groups inside groups: ids with 3 and 4 components next to a 2-component id of the same top-level group;
+    # the nested form is {'P': {'T': {'B': .., 'C': {'N': ..}}, 'A': ..}, 'M': ..}
+    'deep': ['P.T.B', 'P.T.C.N', 'P.A', 'M'],
 }
+# every history of a set over these namings is run in both dict forms (form rotation and its mirror image)
+BOTH_FORMS = ('deep',)
 MECHANISMS = ['add', 'component', 'register', 'mk_palette']
+# the documented modifier table: "a list of individual modifiers with optional 'no_' prefix"
+KEYWORDS = list(S.MOD_NAMES) + ['no_' + m for m in S.MOD_NAMES]
+ALL_ON = ','.join(S.MOD_NAMES)
+ALL_OFF = ','.join('no_' + m for m in S.MOD_NAMES)
+MIX_A = 'bold,no_faint,underline,no_blink,crossed'
+MIX_B = 'no_bold,faint,no_underline,blink,no_crossed'
+DEEP_CFG = 'description nested two or more levels deep in the initial configuration'
+DEEP_DFLT = 'description nested two or more levels deep in component defaults'
+
+
+def mod_event(kw, state):
+    return f"modifier {kw} on top of a parent with the effect {state}"
+
+
 REQUIRED_REACH = ['pending item resolved by a later batch', 'explicit - with a parent',
-                  'built-in id overridden by config']
+                  'built-in id overridden by config', DEEP_CFG, DEEP_DFLT] + \
+                 [mod_event(kw, st) for kw in KEYWORDS for st in ('on', 'off')]
 
 
 def universe_of(naming_names, n):
@@ -76,10 +96,11 @@ def lists_of_lists(items):
             yield out
 
 
-def histories(entries, universe, set_index, ok_together=None):
+def histories(entries, universe, set_index, ok_together=None, flip=0):
     """every split of `entries` between the initial configuration (every order) and later registrations
     (every order and batching).  Form (flat/nested), registration mechanism, global-config mode rotate
-    deterministically with (set_index, history index)."""
+    deterministically with (set_index, history index); flip=1 gives the same histories with every dict in the
+    other form."""
     idx = list(range(len(entries)))
     hi = 0
     for r in range(len(idx), -1, -1):
@@ -93,18 +114,19 @@ def histories(entries, universe, set_index, ok_together=None):
                         continue
                     v = set_index * 7 + hi
                     hi += 1
+                    fv = v ^ (flip & 1)
                     steps = []
                     merged = len(batches) >= 2 and v % 5 == 3
                     if merged:      # all batches through one PARENT_PALETTES chain, registered at once
-                        steps.append({'how': 'parents', 'form': 'nested' if v & 1 else 'flat',
+                        steps.append({'how': 'parents', 'form': 'nested' if fv & 1 else 'flat',
                                       'batches': [[list(entries[i]) for i in b] for b in batches]})
                     else:
                         for k, b in enumerate(batches):
                             steps.append({'how': MECHANISMS[(v // 2 + k) % len(MECHANISMS)],
-                                          'form': 'nested' if (v + k) & 1 else 'flat',
+                                          'form': 'nested' if (fv + k) & 1 else 'flat',
                                           'batches': [[list(entries[i]) for i in b]]})
                     yield {'config': [list(entries[i]) for i in cfg_perm],
-                           'config_form': 'nested' if v & 1 else 'flat',
+                           'config_form': 'nested' if fv & 1 else 'flat',
                            'steps': steps, 'universe': universe,
                            'no_color': False, 'global': v % 8 == 5}
 
@@ -143,7 +165,8 @@ def hist_str(h):
     s = f"ColorsConfig({X.as_dict(h['config'], h.get('config_form', 'flat'))!r}" \
         + (", no_color=True" if h.get('no_color') else '') + ")"
     for st in h['steps']:
-        s += f"; {st['how']}" + '+'.join(repr(X.as_dict(b, 'flat')) for b in st['batches'])
+        form = 'flat' if st['how'] == 'add' else st.get('form', 'flat')      # add_new_items takes a flat dict
+        s += f"; {st['how']}" + '+'.join(repr(X.as_dict(b, form)) for b in st['batches'])
     if h.get('global'):
         s += ' [as global config]'
     if h.get('drop_builtins'):
@@ -179,6 +202,18 @@ class Ctx:
                 flags.append('chain reaches an unknown id')
             if any(spec[s] is not None and len(S.chain(M, s)) >= 3 for s in spec):
                 flags.append('chain of length >= 3')
+            for s in spec:          # own modifier keywords against the state the parent resolves to
+                if spec[s] is None:
+                    continue
+                parent, _fg, _bg, mods = S.parse_descr(M[s])
+                if parent is None or not mods:
+                    continue
+                pm = S.spec_resolve(M, parent)[2]
+                for eff, val in mods.items():
+                    st = {True: 'on', False: 'off', None: 'unset'}[pm.get(eff)]
+                    ev = mod_event(eff if val else 'no_' + eff, st)
+                    if ev not in flags:
+                        flags.append(ev)
             r = (spec, flags)
             self.inf[k] = r
         return r
@@ -216,8 +251,18 @@ def check_history(h, ctx, acc, case_of=None):
         acc.hits['global config with synced palettes'] += 1
     if h.get('config_form') == 'nested' and any('.' in i for i in cfg_ids):
         acc.hits['nested configuration'] += 1
+    deep = S.deep_ids(h['config'], h.get('config_form', 'flat'))
+    if deep:
+        acc.hits[DEEP_CFG] += 1
     for st in h['steps']:
         acc.hits['registration via ' + st['how']] += 1
+        if st['how'] != 'add':          # add_new_items takes a flat dict
+            dd = set()
+            for bt in st['batches']:
+                dd |= S.deep_ids(bt, st.get('form', 'flat'))
+            if dd:
+                acc.hits[DEEP_DFLT] += 1
+                deep |= dd
     prev_spec = None
     for k, rec in enumerate(recs):
         M = maps[k]
@@ -247,6 +292,8 @@ def check_history(h, ctx, acc, case_of=None):
                         cls = 'should-stay-uncoloured'
                     elif S.has_dash_with_parent(M, ch):
                         cls = 'dash-with-parent'
+                    elif deep.intersection(ch):
+                        cls = 'id-nested-two-or-more-levels-deep'
                     elif got == ['', ''] and len(ch) >= 2:
                         cls = 'pending-not-resolved'
                     else:
@@ -319,12 +366,13 @@ def is_nontrivial(entries):
     return any(len(S.chain(M, sid)) >= 2 for sid, _ in entries)
 
 
-def process_set(entries, universe, set_index, acc, no_color_all=False):
-    """all histories of one conflict-free description set"""
+def process_set(entries, universe, set_index, acc, no_color_all=False, flips=(0,)):
+    """all histories of one conflict-free description set (for every flip in `flips`: see histories)"""
     ctx = Ctx()
     groups = {}
     nhist = 0
-    for hi, h in enumerate(histories(entries, universe, set_index)):
+    for hi, h in enumerate(itertools.chain.from_iterable(
+            histories(entries, universe, set_index, flip=fl) for fl in flips)):
         nhist += 1
         recs, maps = check_history(h, ctx, acc)
         fin = final_summary(recs)
@@ -404,14 +452,15 @@ def params(tier):
     """S entries: (naming, exact number of ids, number of reduced-grid entries, parent kinds besides earlier ids)"""
     full = (None, UNKNOWN, BI_PARENT)
     if tier == 'thorough':
-        s_entries = [(nm, n, 8, full) for nm in ('asc', 'desc', 'bi') for n in (1, 2)] + \
-                    [('asc', 3, 5, full), ('desc', 3, 5, full), ('bi', 3, 4, full),
-                     ('asc', 4, 2, (None, UNKNOWN)), ('desc', 4, 2, (None, UNKNOWN))]
+        s_entries = [(nm, n, 8, full) for nm in ('asc', 'desc', 'bi', 'deep') for n in (1, 2)] + \
+                    [('asc', 3, 5, full), ('desc', 3, 5, full), ('bi', 3, 4, full), ('deep', 3, 3, full),
+                     ('asc', 4, 2, (None, UNKNOWN)), ('desc', 4, 2, (None, UNKNOWN)),
+                     ('deep', 4, 2, (None,))]
         return {'S': s_entries,
                 'V_parent_grid': [(f, g, m) for (f, g, m) in FULL_GRID if m in ('', 'bold,underline')],
                 'C_grid': 8, 'C_names': ['A', 'T.X', 'NUMBER', 'TEXT', 'NAME']}
-    s_entries = [(nm, n, 8, full) for nm in ('asc', 'desc', 'bi') for n in (1, 2)] + \
-                [('asc', 3, 4, full), ('desc', 3, 4, full)]
+    s_entries = [(nm, n, 8, full) for nm in ('asc', 'desc', 'bi', 'deep') for n in (1, 2)] + \
+                [('asc', 3, 4, full), ('desc', 3, 4, full), ('deep', 3, 2, (None, UNKNOWN))]
     return {'S': s_entries, 'V_parent_grid': REDUCED_GRID,
             'C_grid': 6, 'C_names': ['A', 'T.X', 'NUMBER', 'TEXT']}
 
@@ -436,7 +485,7 @@ def unit_S(args):
     names, prod = s_space(naming, n, g, kinds)
     uni = universe_of(names, n)
     for idx, combo in enumerate(itertools.islice(prod, lo, hi), lo):
-        process_set(set_entries(names, combo), uni, idx, acc)
+        process_set(set_entries(names, combo), uni, idx, acc, flips=(0, 1) if naming in BOTH_FORMS else (0,))
     return acc.export()
 
 
@@ -457,6 +506,53 @@ def unit_V(args):
     acc = Acc()
     uni = sorted({'X', 'P.Q', UNKNOWN, BI_PARENT, 'TEXT', NEVER})
     for idx, entries in enumerate(itertools.islice(v_sets(params(tier)['V_parent_grid']), lo, hi), lo):
+        process_set(entries, uni, idx, acc, no_color_all=True)
+    return acc.export()
+
+
+def opposite(kw):
+    return kw[3:] if kw.startswith('no_') else 'no_' + kw
+
+
+def m_sets(tier):
+    """modifier table: every keyword of the documented table (the five effects and their 'no_' forms) on top of
+    parents that switch every effect on / off / leave it unset / mix, inherited further by a grandchild"""
+    thorough = tier == 'thorough'
+    p_states = [('RED', 'YELLOW', ALL_ON), ('RED', 'YELLOW', ALL_OFF), ('RED', 'YELLOW', ''),
+                ('RED', '', MIX_A), ('', 'g20', MIX_B)]
+    x_colours = [('', ''), ('BLUE', '')] + ([('-', 'g20'), ('', '(5,0,2)')] if thorough else [])
+    combos = [ALL_ON, ALL_OFF, MIX_A, MIX_B]
+    # (a) P.Q -> X (one keyword) -> L
+    for ps in p_states:
+        for kw in KEYWORDS:
+            for xi, xc in enumerate(x_colours):
+                leaf = S.render('X', '', 'BLUE', '') if xi % 2 == 0 else S.render('X', '', '', opposite(kw))
+                yield [('P.Q', S.render(None, *ps)), ('X', S.render('P.Q', xc[0], xc[1], kw)), ('L', leaf)]
+    # (b) one keyword on top of one keyword
+    for ka in KEYWORDS:
+        for kb in KEYWORDS:
+            yield [('P.Q', S.render(None, 'GREEN', '', ka)), ('X', S.render('P.Q', '', '', kb))]
+    # (c) two keywords (of different effects) and whole combinations in one description
+    pairs = [a + ',' + b2 for a, b2 in itertools.combinations(KEYWORDS, 2) if opposite(a) != b2 and
+             a.replace('no_', '') != b2.replace('no_', '')]
+    for ps in (p_states if thorough else p_states[:3]):
+        for pr in pairs:
+            yield [('P.Q', S.render(None, *ps)), ('X', S.render('P.Q', '', '', pr))]
+    for ps in p_states:
+        for cb in combos:
+            yield [('P.Q', S.render(None, *ps)), ('X', S.render('P.Q', '', '', cb))]
+    # (d) a single description: no parent / unknown parent / built-in parent
+    for p in (None, UNKNOWN, BI_PARENT):
+        for fg in ('', 'GREEN'):
+            for md in KEYWORDS + combos:
+                yield [('X', S.render(p, fg, '', md))]
+
+
+def unit_M(args):
+    tier, lo, hi = args
+    acc = Acc()
+    uni = sorted({'X', 'P.Q', 'L', UNKNOWN, BI_PARENT, 'TEXT', NEVER})
+    for idx, entries in enumerate(itertools.islice(m_sets(tier), lo, hi), lo):
         process_set(entries, uni, idx, acc, no_color_all=True)
     return acc.export()
 
@@ -507,7 +603,7 @@ def unit_C(args):
 def _unit(job):
     kind, args = job
     try:
-        return {'S': unit_S, 'V': unit_V, 'C': unit_C}[kind](args)
+        return {'S': unit_S, 'V': unit_V, 'C': unit_C, 'M': unit_M}[kind](args)
     except Exception as e:      # noqa  harness error -> checker error, not a verdict
         import traceback
         return {'cases': [], 'evals': 0, 'hits': {}, 'fails': {}, 'diags': [],
@@ -533,9 +629,28 @@ def self_check(b):
             if got != want:
                 b.error(f"harness self-check: parse_descr({s!r}) = {got}, rendered from {want}")
                 return False
+    for entries in m_sets('thorough'):      # modifier sections: the table as documented
+        for _sid, s in entries:
+            md = s.split(':')[-1] if ':' in s else ''
+            words = [w for w in md.split(',') if w in KEYWORDS]
+            want = {w[3:] if w.startswith('no_') else w: not w.startswith('no_') for w in words}
+            try:
+                got = S.parse_descr(s)[3]
+            except S.BadDescr:
+                got = None
+            if got != want:
+                b.error(f"harness self-check: parse_descr({s!r}) modifiers = {got}, rendered from {want}")
+                return False
     pairs = [('T.Z', 'RED'), ('M', ''), ('T.Y', 'T.Z'), ('K.Q.B', 'M:bold')]
     if S.flatten(S.nest(pairs)) != dict(pairs):
         b.error("harness self-check: flatten(nest(x)) != x")
+        return False
+    pairs = [(n, 'RED') for n in NAMINGS['deep']]
+    nested = S.nest(pairs)
+    if nested != {'P': {'T': {'B': 'RED', 'C': {'N': 'RED'}}, 'A': 'RED'}, 'M': 'RED'} or \
+            S.flatten(nested) != dict(pairs) or S.deep_ids(pairs, 'nested') != {'P.T.B', 'P.T.C.N'} or \
+            S.deep_ids(pairs, 'flat'):
+        b.error("harness self-check: nest / deep_ids on the deep naming")
         return False
     return True
 
@@ -551,6 +666,9 @@ def jobs_for(tier):
     nv = sum(1 for _ in v_sets(pr['V_parent_grid']))
     for lo in range(0, nv, 60):
         jobs.append(('V', (tier, lo, min(nv, lo + 60))))
+    nm = sum(1 for _ in m_sets(tier))
+    for lo in range(0, nm, 12):
+        jobs.append(('M', (tier, lo, min(nm, lo + 12))))
     nc = sum(1 for _ in c_sets(tier))
     for lo in range(0, nc, 40):
         jobs.append(('C', (tier, lo, min(nc, lo + 40))))
@@ -562,7 +680,7 @@ def describe(tier):
     s = '; '.join(f"{NAMINGS[nm][:n]} x {g} grid entries x parent kinds {['none' if k is None else k for k in kinds]}"
                   f" = {s_size(nm, n, g, kinds)} sets"
                   for nm, n, g, kinds in pr['S'])
-    return s, len(pr['V_parent_grid']), pr['C_grid'], pr['C_names']
+    return s, len(pr['V_parent_grid']), pr['C_grid'], pr['C_names'], sum(1 for _ in m_sets(tier))
 
 
 def run(b):
